@@ -158,6 +158,63 @@ func TestC09(t *testing.T) {
 		}
 		synctest.Test(t, func(t *testing.T) { c09Run(t, run, sc) })
 	}
+	for k := 0; k < run.N(16, 400); k++ {
+		desc := map[string]any{"idx": k, "kind": "probes-slower-than-the-interval-within-the-timeout"}
+		if !run.Mine(n+k, desc) {
+			continue
+		}
+		synctest.Test(t, func(t *testing.T) { c09Lag(t, run, k, run.Rand(n+k)) })
+	}
+}
+
+// c09Lag: the probe timeout is longer than the probe interval (as with the defaults, 5s and 1s), and
+// after deployment a target's probes take longer than the interval but less than the timeout. Those
+// probes pass: the target stays in rotation and gets its share.
+func c09Lag(t *testing.T, run *Run, idx int, rng *rand.Rand) {
+	w := NewWorld(t, WorldOpt{})
+	defer w.Close()
+	run.Eval()
+	to := DefTO
+	to.HealthCheckConfig.Interval = 300 * time.Millisecond
+	to.HealthCheckConfig.Timeout = time.Second
+	lag := time.Duration(400+rng.IntN(400))*time.Millisecond + OffTarget
+	nt := 1 + rng.IntN(3)
+	nlag := 1 + rng.IntN(nt)
+	var names []string
+	for i := 0; i < nt; i++ {
+		name := fmt.Sprintf("lag%d-t%d:80", idx%5, i)
+		names = append(names, name)
+		slow := i < nlag
+		w.AddTarget(name, func(n int, at time.Duration) ProbeAct {
+			if slow && n >= 1 {
+				return ProbeAct{Status: 200, Delay: lag}
+			}
+			return ProbeAct{Status: 200}
+		})
+	}
+	if c := w.Deploy("svc", names, DefSO, to, 5*time.Second, time.Second); c.Err != "" {
+		run.Inconclusive("setup failed: %s", c.Err)
+		return
+	}
+	time.Sleep(4 * time.Second)
+	per := map[string]int{}
+	nreq := 6 * nt
+	for k := 0; k < nreq; k++ {
+		r := w.Do(Req{ID: fmt.Sprintf("l%d", k), Host: "c09.example", Path: "/l"})
+		if r.Status != 200 {
+			run.Violate("lagging-probe-treated-as-failed", fmt.Sprintf("probe interval 300ms, timeout 1s, %d of %d targets answer their probes after %v: request %d got status %d", nlag, nt, lag, k, r.Status), map[string]any{"idx": idx, "targets": nt, "lagging": nlag, "lag": lag}, func() []string { return w.Trace(100) })
+			return
+		}
+		per[r.Target]++
+		time.Sleep(20 * time.Millisecond)
+	}
+	for _, name := range names {
+		if per[name] != nreq/nt {
+			run.Violate("unfair-rotation:lagging-probes", fmt.Sprintf("probe interval 300ms, timeout 1s, %d of %d targets answer their probes (200) after %v: %d sequential requests were spread %v, expected %d each", nlag, nt, lag, nreq, per, nreq/nt), map[string]any{"idx": idx, "targets": nt, "lagging": nlag, "lag": lag}, func() []string { return w.Trace(100) })
+			return
+		}
+	}
+	run.Class(fmt.Sprintf("lag|nt%d|lagging%d", nt, nlag))
 }
 
 type c09Done struct {
